@@ -859,6 +859,49 @@ theorem C14_bucket (u rate burst : Nat) (dts : List Nat) :
   rw [hb, hr] at this
   omega
 
+theorem allow_burst (u : Nat) (b : Bucket) (dt : Nat) : (b.allow u dt).1.burst = b.burst := by
+  unfold Bucket.allow; simp only; split <;> rfl
+
+theorem runAllow_fields (u : Nat) (b : Bucket) (dts : List Nat) :
+    (b.runAllow u dts).1.burst = b.burst ∧ (b.runAllow u dts).1.rate = b.rate := by
+  induction dts generalizing b with
+  | nil => simp [Bucket.runAllow]
+  | cons dt dts ih =>
+    simp only [Bucket.runAllow]
+    have := ih (b.allow u dt).1
+    rw [allow_burst, allow_rate] at this
+    exact this
+
+/-- the first call of a window finds at most `burst` in the bucket, whatever went on before and however long it was idle -/
+theorem allow_capped (u : Nat) (b : Bucket) (dt : Nat) :
+    (b.allow u dt).1.tokens + (if (b.allow u dt).2 then u else 0) ≤ b.burst := by
+  unfold Bucket.allow
+  simp only
+  split <;> simp <;> omega
+
+/-- **C14_bucket_window.** In every window of a bucket's life - after any history `pre`, starting with any call (after any idle
+time `dt0`) - the calls admitted from that call on number at most `burst + rate · (time from that call to the last)`: idle time before
+the window buys nothing beyond the burst. -/
+theorem C14_bucket_window (u rate burst : Nat) (pre : List Nat) (dt0 : Nat) (dts : List Nat) :
+    ((((Bucket.new u rate burst).runAllow u pre).1).runAllow u (dt0 :: dts)).2 * u ≤ (max burst 1) * u + dts.sum * rate := by
+  have hf := runAllow_fields u (Bucket.new u rate burst) pre
+  generalize ((Bucket.new u rate burst).runAllow u pre).1 = b at hf
+  have hb : (Bucket.new u rate burst).burst = (max burst 1) * u := by
+    unfold Bucket.new; simp only; split <;> (congr 1; omega)
+  have hr : (Bucket.new u rate burst).rate = rate := by unfold Bucket.new; rfl
+  rw [hb, hr] at hf
+  simp only [Bucket.runAllow]
+  have h1 := allow_capped u b dt0
+  have h2 := bucket_account u (b.allow u dt0).1 dts
+  rw [allow_rate, hf.2] at h2
+  rw [hf.1] at h1
+  have e2 : (((b.allow u dt0).1.runAllow u dts).2 + 1) * u = ((b.allow u dt0).1.runAllow u dts).2 * u + u := by
+    rw [Nat.add_mul, Nat.one_mul]
+  cases hok : (b.allow u dt0).2 <;> simp only [hok, if_true, if_false, Bool.false_eq_true, Nat.add_zero] at h1 ⊢ <;> omega
+
+-- a volley of 2·burst after a long idle period: only `burst` pass (rate 5/s, burst 5, unit 1000, times in ms)
+example : ((Bucket.new 1000 5 5).runAllow 1000 ([1300] ++ List.replicate 14 0)).2 = 5 := by decide
+
 /-- a full bucket admits: the limiter is not stricter than configured -/
 theorem bucket_admits_when_full (u : Nat) (b : Bucket) (dt : Nat) (h : u ≤ min (b.tokens + dt * b.rate) b.burst) :
     (b.allow u dt).2 = true := by
